@@ -107,25 +107,24 @@ func parseBitfieldEncodingType(encoding string) (signed bool, width int) {
 }
 
 func parseBitfieldOffset(spec string, width int) (offset int, valid bool) {
+	multiplier := int64(1)
 	if strings.HasPrefix(spec, "#") {
-		n, err := strconv.ParseInt(spec[1:], 10, 32)
-		if err != nil {
-			valid = false
-			return
-		}
-		if n < 0 {
-			valid = false
-			return
-		}
-		offset = int(n) * width
-	} else {
-		n, err := strconv.ParseInt(spec, 10, 32)
-		if err != nil {
-			valid = false
-			return
-		}
-		offset = int(n)
+		spec = spec[1:]
+		multiplier = int64(width)
 	}
+
+	n, err := strconv.ParseInt(spec, 10, 64)
+	if err != nil || n < 0 || n > 4*1024*1024*1024 {
+		return
+	}
+
+	// the whole field has to be inside the 512MB (2^32 bits) a string can hold
+	n *= multiplier
+	if n+int64(width) > 4*1024*1024*1024 {
+		return
+	}
+
+	offset = int(n)
 	valid = true
 	return
 }
@@ -361,7 +360,8 @@ func fnGetBit(ctx *cmdContext, args map[string]any) (output respValue, err error
 	keyName := args["key"].(string)
 	bit64 := args["offset"].(int64)
 
-	if bit64 < 0 {
+	if bit64 < 0 || bit64 >= 4*1024*1024*1024 {
+		// strings are limited to 512MB, which is 2^32 bits
 		output.data = respErrorString("ERR bit offset is not an integer or out of range")
 		return
 	}
